@@ -32,7 +32,7 @@ def acc(fn, conv):
     try:
         v = fn()
     except Exception as e:
-        return 'E' + type(e).__name__
+        return 'E' + impl.ename(e)
     if v is None:
         return 'N'
     return conv(v)
@@ -65,7 +65,7 @@ def report_obj(ro):
         try:
             return X.s_tok(fn())
         except Exception as e:
-            return 'E' + type(e).__name__
+            return 'E' + impl.ename(e)
     out = ['completed=%d' % (1 if ro.completed else 0),
            'roid=' + tagtext(lambda: ro.ro_id), 'roslug=' + tagtext(lambda: ro.ro_slug),
            'start=' + acc(lambda: ro.start_time, t_us),
@@ -76,7 +76,7 @@ def report_obj(ro):
     try:
         stories = ro.stories
     except Exception as e:
-        out.append('stories=E' + type(e).__name__)
+        out.append('stories=E' + impl.ename(e))
         return ' '.join(out)
     out.append('stories=%d' % len(stories))
     for s in stories:
@@ -92,7 +92,7 @@ def report_obj(ro):
                 try:
                     out.append(X.s_tok(f()))
                 except Exception as e:
-                    out.append('E' + type(e).__name__)       # a raised exception is a value of the report
+                    out.append('E' + impl.ename(e))       # a raised exception is a value of the report
     return ' '.join(out)
 
 
